@@ -28,6 +28,14 @@ Theorem C10_published_names_covered :
 Proof. exact DispatchProofs.published_names_covered. Qed.
 Print Assumptions C10_published_names_covered.
 
+(* totality: every published code (all variants x parameters 0..10 that have a constant name) is accepted by
+   every dispatcher (FuncCodeReader/Writer/Len::new, the reader factory, the enum arms, ConstCode by name) *)
+Theorem C10_dispatch_total : forall c nm op, In c named_codes -> const_name c = Some nm ->
+  (exists cl, func_call op c = Some cl) /\ (exists cl, enum_call op c = Some cl) /\
+  (exists cl, named_const_call op c = Some cl) /\ (exists cl, factory_call c = Some cl).
+Proof. exact DispatchProofs.dispatch_total. Qed.
+Print Assumptions C10_dispatch_total.
+
 (* the enumeration, for EVERY parameter value (not only the literals of the arms) *)
 Theorem C10_enum : forall op v p, (has_param v = false -> p = 0) ->
   exists cl, enum_call op {| cvar := v; cparam := p |} = Some cl /\
